@@ -266,8 +266,15 @@ def check(ctx: Ctx, col: Collector, tier: str) -> None:
                     if "==" in fk and fv:
                         sf = set(_re.findall(r"<self\.(\w+)", fk))
                         of = set(_re.findall(r"<other\.(\w+)", fk))
-                        if sf and of and (sf != of or len(sf) > 1):
+                        if sf and of and sf != of:
                             mixed.append(fk)
+                        elif sf and of and len(sf) > 1:
+                            # several fields in one comparison are fine when it is positional (tuple / list) with the same field order on both sides
+                            lhs, _, rhs = fk.partition("==")
+                            same_order = _re.findall(r"<self\.(\w+)", lhs + rhs) == _re.findall(r"<other\.(\w+)", lhs + rhs)
+                            unordered = any(t in fk for t in ("{", "Counter(", "frozenset(", "set(", "sorted("))
+                            if unordered or not same_order:
+                                mixed.append(fk)
         key = f"{TYPES_MOD}::{k}.__eq__::fieldwise"
         if mixed:
             col.bad("C14.TYPE-EQ", key, repo.loc(TYPES_MOD, eq.node), f"{mixed[:2]}",
